@@ -464,9 +464,14 @@ class Engine:
             return
         for fname, fty in spec.fields.items():
             self.state.heap[(obj.oid, fname)] = self.fresh_of_type(fty, "%s.%s" % (base, fname))
-        for nm, text in spec.invariants:
-            v = self.eval_spec(text, {"self": obj}, spec.module)
-            self.assume(self.truth(v))
+        prev = getattr(self, "assuming", False)
+        self.assuming = True       # invariants of a symbolic object are assumptions: container-shape facts are installed
+        try:
+            for nm, text in spec.invariants:
+                v = self.eval_spec(text, {"self": obj}, spec.module)
+                self.assume(self.truth(v))
+        finally:
+            self.assuming = prev
 
     # ------------------------------------------------------------ path machinery
     def assume(self, cond):
